@@ -35,6 +35,13 @@ def run(tier, seed):
             tr = vlib.split_traces(vlib.read_ndjson(tf))
             if tr:
                 v.sample({"history_events": [{k: e[k] for k in e if k in ("ev", "kind", "obj", "pxy", "member", "key", "param", "errc", "n", "open", "created")} for e in tr[0][:30]]})
+    # the last member leaves while the group's worker holds an accepted connection it has not handed over yet (gate at
+    # group.handoff): the connection is closed, nothing is left open, the server stays up (HandOff: NoOrphan, Settles)
+    if not v.violations:
+        hf = d / "handoff.ndjson"
+        p = vlib.run_driver(drv, ["handoff", "-rounds", 5 if tier == "quick" else 16, "-paths", "tcp-group,tcpmux-group", "-out", hf], timeout=1800)
+        sc.parse_stats(p.stdout, stats)
+        sc.validate(v, "Trace_HandOff", (vlib.SPEC / "Trace_HandOff.cfg").read_text(), hf, "last leave during a hand-off")
     v.add_cov(evaluations=stats.get("join", 0) + stats.get("leave", 0) + stats.get("probe", 0),
               distinct_nontrivial=stats.get("race_hit", 0) + stats.get("rotation", 0) + stats.get("leave", 0),
               rule="histories = seeded joins (right/wrong key, same/different endpoint parameter, fixed and server-chosen port), leaves and traffic probes on tcp, http and tcpmux groups by 3 scripted clients; "
